@@ -26,12 +26,11 @@ package cache
 //@   ensures[C10] fs_staterr(path) || (fsPresent(path) && bad) ==> result != nil && fs_mkdirs() == old(fs_mkdirs())
 //@   ensures[C10] fsPresent(path) && !bad ==> result == nil && fs_mkdirs() == old(fs_mkdirs())
 
-// Snapshot serialises the cache with encoding/json (reflection; outside the verified subset).
-//@ assume-contract (*cache).Snapshot
-//@   modifies nothing
+// Snapshot serialises the cache with encoding/json (reflection; outside the verified subset): its contract is
+// at the end of this file.
 
 //@ func (*cache).Save
-//@   requires cch != nil
+//@   requires cch != nil && cch.PolicyJSON != nil
 //@   let tmp = cch.filePath + ".saving"
 //@   ensures[C10] tmp != cch.filePath
 //@   ensures[C10] forall q string :: fs_written(q) && !old(fs_written(q)) ==> q == tmp
@@ -80,3 +79,31 @@ package cache
 //@   ensures[C20] qosClass == corev1.PodQOSGuaranteed ==> result.Limits[corev1.ResourceCPU] == result.Requests[corev1.ResourceCPU]
 //@   ensures[C20] (qosClass == corev1.PodQOSBurstable || qosClass == corev1.PodQOSBestEffort) && QuotaToMilliCPU(quota, period) > 0 ==>
 //@        corev1.ResourceCPU in result.Limits && qmilli(result.Limits[corev1.ResourceCPU]) == QuotaToMilliCPU(quota, period)
+
+// ---- C10: what Snapshot() hands to the JSON encoder -----------------------------------------------------------
+// The encoder itself (encoding/json, and the per-entry marshalEntry) is outside the contracts: both are treated
+// as deterministic functions of their argument. What is proved is the value that is marshalled: every pod of
+// the cache under its key, every container, and every policy entry - raw (not yet demarshalled) entries of
+// PolicyJSON are carried over unchanged, demarshalled ones are re-marshalled from policyData.
+//@ effect marshalEntry pure
+//@ effect std:encoding/json.Marshal pure
+//@ func (*cache).Snapshot
+//@   requires cch != nil && cch.PolicyJSON != nil
+//@   modifies cch.PolicyJSON[*]
+//@   ensures[C10] result1 == nil ==> forall k string :: old(k in cch.PolicyJSON) || k in cch.policyData <==> k in cch.PolicyJSON
+//@   ensures[C10] result1 == nil ==> forall k string :: old(k in cch.PolicyJSON) && !(k in cch.policyData) ==> cch.PolicyJSON[k] == old(cch.PolicyJSON[k])
+//@ assert[C10] in (*cache).Snapshot at "data, err := json.Marshal(s)": s.PolicyJSON == cch.PolicyJSON && s.NextID == cch.NextID && s.PolicyName == cch.PolicyName && s.Version == CacheVersion &&
+//@      (forall id string :: id in cch.Pods ==> id in s.Pods && s.Pods[id] == cch.Pods[id]) && (forall id string :: id in s.Pods ==> id in cch.Pods) &&
+//@      (forall id string :: id in cch.Containers ==> cch.Containers[id] != nil ==> cch.Containers[id].Ctr.GetId() in s.Containers)
+//@ loop 0 in (*cache).Snapshot at "range cch.Pods"
+//@   modifies s.Pods[*]
+//@   invariant forall id string :: seen(id) ==> id in s.Pods && s.Pods[id] == cch.Pods[id]
+//@   invariant forall id string :: id in s.Pods ==> id in cch.Pods
+//@ loop 1 in (*cache).Snapshot at "range cch.Containers"
+//@   modifies s.Containers[*]
+//@   invariant forall id string :: seen(id) && cch.Containers[id] != nil ==> cch.Containers[id].Ctr.GetId() in s.Containers
+//@ loop 2 in (*cache).Snapshot at "range cch.policyData"
+//@   modifies cch.PolicyJSON[*]
+//@   invariant forall k string :: old(k in cch.PolicyJSON) || seen(k) <==> k in cch.PolicyJSON
+//@   invariant forall k string :: seen(k) ==> k in cch.policyData
+//@   invariant forall k string :: old(k in cch.PolicyJSON) && !seen(k) ==> cch.PolicyJSON[k] == old(cch.PolicyJSON[k])
